@@ -3,6 +3,7 @@
 # usage: seed_check.sh <seeded-dir> <property>...
 d=$(realpath $1); shift
 w=/work/repo-mut
+[ -d $w ] || { mkdir -p /work && git -C /repo worktree add -q --detach $w HEAD; } || exit 2
 cd $w && git checkout -q -- . && git clean -fdq && git apply $d/patch.diff || exit 2
 cd /verif
 for p in "$@"; do
